@@ -381,6 +381,22 @@ impl Router {
         assert_eq!(self.ackslog.insert(ackslog), connection_id);
         assert_eq!(self.scheduler.add(tracker), connection_id);
 
+        // A resumed session is a member of its shared subscription groups again
+        let shared_requests: Vec<(String, Offset)> = self.scheduler.trackers[connection_id]
+            .data_requests
+            .iter()
+            .filter_map(|request| request.group.clone().map(|group| (group, request.cursor)))
+            .collect();
+        for (group, cursor) in shared_requests {
+            self.shared_subscriptions
+                .entry(group)
+                .or_insert(SharedGroup::new(
+                    cursor,
+                    self.config.shared_subscriptions_strategy.clone(),
+                ))
+                .add_client(client_id.clone());
+        }
+
         // Check if there are multiple data requests on same filter.
         debug_assert!(self
             .scheduler
